@@ -337,6 +337,22 @@ let cmd_alias () =
     done
   with End_of_file -> ()
 
+(* ---------------- Parallel embedding: "T 1 ; C 3 1 1 1 ; C 2 0 0 0" -> flow line *)
+let cmd_parflow () =
+  try
+    while true do
+      let line = input_line stdin in
+      let items = List.filter_map (fun it -> match split_ws it with
+        | ["T"; he] -> Some (PTask (he = "1"))
+        | ["C"; n; ee; e; ende] -> Some (PColl (nat n, ee = "1", e = "1", ende = "1"))
+        | _ -> None) (String.split_on_char ';' line) in
+      let f = par_flow items in
+      let l xs = if xs = [] then "-" else String.concat "," (List.map (fun x -> string_of_int (int_of_nat x)) xs) in
+      print_endline (String.concat " | " ("P" :: "R" :: List.map (fun t ->
+        Printf.sprintf "T %s %s - %d 0 %d" (l t.kins) (l t.kouts) (if t.kinvoke then 1 else 0) (if t.khaserr then 1 else 0)) f.gtasks))
+    done
+  with End_of_file -> ()
+
 (* ---------------- emitter stacks: "L1 L2 ; V0 L3" -> receivers of each v_k, "1,2|1,2,3" *)
 let cmd_emstack () =
   try
@@ -363,6 +379,7 @@ let () =
   | _ :: "prologue" :: _ -> cmd_prologue ()
   | _ :: "emstack" :: _ -> cmd_emstack ()
   | _ :: "alias" :: _ -> cmd_alias ()
+  | _ :: "parflow" :: _ -> cmd_parflow ()
   | _ :: "validate" :: _ -> cmd_validate ()
   | _ :: "sched-replay" :: _ -> cmd_sched_replay ()
   | _ :: "invert" :: _ -> cmd_invert ()
